@@ -7,6 +7,7 @@ import (
 	"path/filepath"
 	"runtime"
 	"runtime/debug"
+	"sort"
 	"strconv"
 	"strings"
 
@@ -413,7 +414,7 @@ func init() {
 	explore.Register(&explore.Prop{
 		ID:        "C06",
 		Title:     "Concurrent evaluations are isolated and race-free",
-		Technique: "stateless model checking of the real code under a cooperative scheduler: every interleaving of 2-3 goroutines at the hooked points up to a preemption bound (iterated 0,1,2; thorough 3), with outcome-isolation oracle, deadlock detection and a vector-clock happens-before race monitor on hooked locations",
+		Technique: "stateless model checking of the real code under a cooperative scheduler: every interleaving of 2-3 goroutines at the hooked points up to a preemption bound (iterated 0,1,2; thorough 3), with outcome-isolation oracle, deadlock detection and a vector-clock happens-before race monitor on hooked locations; separately, the same bodies free-running under go build -race (a library race reported in two independent runs is a violation, silence decides nothing)",
 		Rule: "a case is one complete schedule (sequence of thread choices at hooked points) of one scenario; oracle: every Eval returns its solo outcome, Compile sees exactly the " +
 			"package registrations that happened before it, no deadlock, no unordered conflicting access on a hooked location; non-trivial when the schedule contains a preemption",
 		Assumptions: []string{
@@ -422,6 +423,7 @@ func init() {
 			"more than 3 threads / 2 operations per thread are outside the bound",
 		},
 		Post: c06Post,
+		Replay: c06Replay,
 		Phases: []explore.Phase{
 			{Name: "schedules", Quick: []int{0, 1, 2}, Thorough: []int{0, 1, 2, 3, 4}, ShardDepth: 1,
 				Init: func(int) { debug.SetGCPercent(-1) },
@@ -494,6 +496,56 @@ func C06RacePass(tier string, iters int) {
 	fmt.Printf("RACEPASS scenarios=%d runs=%d wrong_outcomes=%d first=%q\n", len(scs), runs, wrong, firstWrong)
 }
 
+// c06RaceKeys extracts, from the output of a -race binary, one key per reported race: the innermost
+// frames of the two conflicting accesses that lie in the library (reports whose accesses are not in
+// github.com/blues/jsonata-go are ignored: they would be races of the harness, not of the code under test).
+func c06RaceKeys(out string) map[string]string {
+	keys := map[string]string{}
+	for _, blk := range strings.Split(out, "WARNING: DATA RACE")[1:] {
+		if i := strings.Index(blk, "=================="); i >= 0 {
+			blk = blk[:i]
+		}
+		var fns []string
+		inAccess := false
+		for _, l := range strings.Split(blk, "\n") {
+			t := strings.TrimSpace(l)
+			switch {
+			case strings.HasPrefix(t, "Write at"), strings.HasPrefix(t, "Read at"), strings.HasPrefix(t, "Previous write at"), strings.HasPrefix(t, "Previous read at"):
+				inAccess = true
+			case strings.HasPrefix(t, "Goroutine "):
+				inAccess = false
+			case inAccess && strings.HasPrefix(t, "github.com/blues/jsonata-go") && strings.HasSuffix(t, ")"):
+				fn := strings.TrimPrefix(t, "github.com/blues/jsonata-go")
+				if j := strings.LastIndex(fn, "("); j > 0 {
+					fn = fn[:j]
+				}
+				fns = append(fns, strings.TrimLeft(fn, "./"))
+				inAccess = false
+			}
+		}
+		if len(fns) == 2 {
+			if fns[0] > fns[1] {
+				fns[0], fns[1] = fns[1], fns[0]
+			}
+			k := "race-detector:" + fns[0] + " / " + fns[1]
+			if _, ok := keys[k]; !ok {
+				if len(blk) > 3000 {
+					blk = blk[:3000]
+				}
+				keys[k] = "WARNING: DATA RACE" + blk
+			}
+		}
+	}
+	return keys
+}
+
+func c06RunRacePass(root string, iters int) (string, error) {
+	cmd := exec.Command(filepath.Join(root, ".bin", "check-race"), "-racepass", strconv.Itoa(iters))
+	cmd.Env = append(os.Environ(), "GORACE=halt_on_error=0 exitcode=0", "GOMAXPROCS=8")
+	out, err := cmd.CombinedOutput()
+	return string(out), err
+}
+
 func c06Post(env *explore.Env, res *explore.Result) {
 	bin := filepath.Join(env.Root, ".bin", "check-race")
 	if _, err := os.Stat(bin); err != nil {
@@ -504,10 +556,7 @@ func c06Post(env *explore.Env, res *explore.Result) {
 	if env.Tier == "thorough" {
 		iters = 400
 	}
-	cmd := exec.Command(bin, "-racepass", strconv.Itoa(iters))
-	cmd.Env = append(os.Environ(), "GORACE=halt_on_error=0 exitcode=0", "GOMAXPROCS=8")
-	out, err := cmd.CombinedOutput()
-	s := string(out)
+	s, err := c06RunRacePass(env.Root, iters)
 	races := strings.Count(s, "WARNING: DATA RACE")
 	summary := ""
 	for _, l := range strings.Split(s, "\n") {
@@ -515,7 +564,8 @@ func c06Post(env *explore.Env, res *explore.Result) {
 			summary = l
 		}
 	}
-	aux := map[string]interface{}{"pass": "free-running goroutines under go build -race (samples schedules; auxiliary, never the sole basis of a verdict)",
+	aux := map[string]interface{}{"pass": "free-running goroutines under go build -race (samples schedules; separate from the controlled scheduler, whose hand-offs would hide races from the detector). " +
+		"A race it reports inside the library is a violation once a second, independent run of the pass reports the same pair of functions; absence of reports is never the basis of the verdict",
 		"races_reported": races, "summary": summary}
 	if err != nil {
 		aux["error"] = err.Error()
@@ -523,11 +573,56 @@ func c06Post(env *explore.Env, res *explore.Result) {
 	res.Extra["aux"] = aux
 	if races > 0 || (summary != "" && !strings.Contains(summary, "wrong_outcomes=0 ")) {
 		os.MkdirAll(filepath.Join(env.Root, "replay", "C06"), 0o755)
-		p := filepath.Join(env.Root, "replay", "C06", "aux-race-report.txt")
-		if len(s) > 200000 {
-			s = s[:200000]
+		p := filepath.Join(env.Root, ".work", "C06-aux-race-report.txt")
+		full := s
+		if len(full) > 200000 {
+			full = full[:200000]
 		}
-		os.WriteFile(p, []byte(s), 0o644)
+		os.WriteFile(p, []byte(full), 0o644)
 		fmt.Printf("AUX-RACE-REPORT property=C06 races=%d %s (report: %s)\n", races, summary, p)
 	}
+	keys := c06RaceKeys(s)
+	if len(keys) == 0 {
+		return
+	}
+	// confirmation: an independent second run of the pass must report the same pair of library functions
+	s2, _ := c06RunRacePass(env.Root, iters)
+	keys2 := c06RaceKeys(s2)
+	var confirmed []string
+	for k := range keys {
+		if _, ok := keys2[k]; ok {
+			confirmed = append(confirmed, k)
+		}
+	}
+	sort.Strings(confirmed)
+	aux["races_confirmed_by_second_run"] = confirmed
+	for _, k := range confirmed {
+		res.Violations = append(res.Violations, &explore.Violation{Kind: "race-detector", Key: k, Phase: "aux-race-pass", Count: 1,
+			Detail: explore.Detail{Program: "the C06 scenario bodies on free-running goroutines in a binary built with -race (" + summary + ")",
+				Input: "thread inputs a=xAz / yBz / wCz", Expected: "no data race inside github.com/blues/jsonata-go",
+				Observed: keys[k], Note: "reported by the Go race detector in two independent runs of the pass; replay re-runs the pass"}})
+	}
+}
+
+// c06Replay re-runs the free-running pass for a recorded race-detector violation (other kinds: default replay).
+func c06Replay(env *explore.Env, v *explore.Violation) int {
+	if v.Kind != "race-detector" {
+		return -1
+	}
+	hits := 0
+	for rep := 0; rep < 2; rep++ {
+		out, _ := c06RunRacePass(env.Root, 40)
+		keys := c06RaceKeys(out)
+		if blk, ok := keys[v.Key]; ok {
+			hits++
+			fmt.Printf("replay %d: reported again\n%s\n", rep+1, blk)
+		} else {
+			fmt.Printf("replay %d: not reported (%d other library races)\n", rep+1, len(keys))
+		}
+	}
+	if hits > 0 {
+		return 1
+	}
+	fmt.Println("not reproduced: the race pass reports no such race on the current tree")
+	return 0
 }
